@@ -29,7 +29,10 @@ def one_section(ctx, rule, instance, fn, member, what, min_members=2):
     release it) between two member events."""
     rel = c03._may_release(ctx.P)
     members = [e for b, i, e in fn.events() if member(e)]
-    ctx.require(len(members) >= min_members, "%s: only %d events of the section %s found" % (fn.name, len(members), instance))
+    if len(members) < min_members:
+        ctx.bad(rule, instance, fn.name, fn.loc, "%s: only %d of the %d events that must share the section are present"
+                % (what, len(members), min_members))
+        return False
 
     la = lockmodel.analysis(ctx)
     ctxs = [H for (H, mode) in la.contexts.get((fn.file, fn.line, fn.name), ()) if mode == "mt"]
